@@ -398,8 +398,20 @@ class ResNetwork(GeoNetwork):
 
         """
         # a sparse matrix for the admittance values
+        #  The Laplacian annihilates the constant vector. Rounding may leave
+        #  the corresponding singular value just above the cutoff of pinv,
+        #  which then adds a huge constant to all entries of R (and the
+        #  single precision kernels lose every digit). Deflate this known
+        #  null space first: with the projector P = ones / N and any c != 0,
+        #  pinv(L) = pinv(L + c P) - P / c; c is set to the mean diagonal
+        #  entry of L to keep the shifted matrix well conditioned.
+        laplacian = self.admittance_lapacian()
+        P = np.ones_like(laplacian) / self.N
+        c = np.abs(np.trace(laplacian)) / self.N
+        if c == 0:
+            c = 1.0
         self.sparse_R = sparse.lil_matrix(
-            np.linalg.pinv(self.admittance_lapacian()))
+            np.linalg.pinv(laplacian + c * P) - P / c)
 
     def get_R(self):
         """Return the pseudo inverse of of the admittance Laplacian
